@@ -377,6 +377,16 @@ class SqlImpl(TableImpl):
                     else:
                         needed_cols[node._uuid] = cnt + 1
 
+            union_cols = []
+            if isinstance(nd, verbs.Union):
+                # Every visible column of both operands takes part in the union (and
+                # decides which rows are duplicates), whether it is used later or not.
+                from pydiverse.transform._internal.pipe.cache import Cache
+
+                union_cols = [*Cache.from_ast(nd.child).uuid_to_name, *Cache.from_ast(nd.right).uuid_to_name]
+                for uid in union_cols:
+                    needed_cols[uid] = needed_cols.get(uid, 0) + 1
+
             table, query, sqa_expr = cls.compile_ast(nd.child, needed_cols)
 
         if isinstance(nd, verbs.Mutate | verbs.Summarize):
@@ -621,6 +631,11 @@ class SqlImpl(TableImpl):
                         del needed_cols[node._uuid]
                     else:
                         needed_cols[node._uuid] = cnt - 1
+            for uid in union_cols:
+                if needed_cols[uid] == 1:
+                    del needed_cols[uid]
+                else:
+                    needed_cols[uid] -= 1
 
         return table, query, sqa_expr
 
